@@ -102,6 +102,8 @@ pub fn verif_classes() -> Vec<Class> {
         sig("firedB", &["bool"]),
         sig("firedD", &["double"]),
         sig("firedP", &["VSrc*"]),
+        // a gadget-valued argument (handlers may read it, write its members, re-assign it)
+        sig("firedF", &["QFont"]),
         // default-argument pair, as moc emits for `void trig(bool = false)`
         sig("trig", &[]),
         sig("trig", &["bool"]),
